@@ -95,6 +95,20 @@ func (a *Analyzer) Normalize(f Facts) (Facts, map[string]*Term) {
 			if base.Op == "field" && len(base.Args) == 1 {
 				base = base.Args[0]
 			}
+			// the single result of an unexported helper that is known to equal something more primitive (what the helper
+			// returns: typically a factory / SPI call) is rewritten to it
+			if l.Op == "call" && r.Op == "call" && l.Key() != r.Key() {
+				if g := a.calleeOf(l); g != nil && !token.IsExported(g.Name()) && g.Signature.Results().Len() == 1 {
+					rg := a.calleeOf(r)
+					internal := r.Contains(func(t *Term) bool { return t.Op == "phi" || t.Op == "unk" || t.Op == "make" })
+					if !internal && !r.ContainsKey(l.Key()) && (rg == nil || token.IsExported(rg.Name()) || r.Key() < l.Key()) {
+						if _, dup := rw[l.Key()]; !dup {
+							rw[l.Key()] = r
+						}
+						continue
+					}
+				}
+			}
 			if base.Op == "ext" && len(base.Args) == 1 && base.Args[0].Op == "call" && a.calleeOf(base.Args[0]) != nil &&
 				(a.rwRank(l) > a.rwRank(r) || (a.rwRank(l) == a.rwRank(r) && !(r.Op == "ext" && len(r.Args) == 1 && r.Args[0].Op == "call" && r.Key() > l.Key()))) {
 				internal := r.Contains(func(t *Term) bool { return t.Op == "phi" || t.Op == "unk" || t.Op == "make" })
